@@ -30,6 +30,8 @@ import (
 	"runtime"
 	"sync"
 	"syscall"
+
+	"github.com/EdgeCast/vflow/ipfix"
 )
 
 var (
@@ -56,6 +58,14 @@ func main() {
 
 	if !opts.ProducerEnabled {
 		logger.Println("producer message queue has been disabled")
+	}
+
+	if opts.IPFIXEnabled {
+		// the information model is shared with the NetFlow v9 decoder: load the
+		// extension elements before any listener starts decoding with it
+		if err := ipfix.LoadExtElements(opts.VFlowConfigPath); err != nil {
+			logger.Println("load.ext.elements:", err)
+		}
 	}
 
 	protos := []proto{NewSFlow(), NewIPFIX(), NewNetflowV5(), NewNetflowV9()}
